@@ -21,6 +21,7 @@ type Layout struct {
 	CharRefs bool // serializer renders some characters as numeric references
 	XsiType  bool
 	SQuote   bool // serializer uses single quotes for attributes where possible
+	LeadWS   bool // white space before the root element (only without an XML declaration) and after it
 }
 
 type Builder struct {
